@@ -41,6 +41,7 @@ func verif_lastarg(name string, i int) int
 func verif_lastargn(name string, i int, k int) int
 func verif_lastres(name string) int
 func verif_lastresn(name string, k int) int
+func verif_nthres(name string, k int) int
 `
 
 type clauseInfo struct {
